@@ -608,3 +608,198 @@ Section Accounts.
       + destruct (da_type (sd_primary sd) =? T_MAIN); [injection H as <- <-; reflexivity|].
         destruct (add_share_to_account (add_share_to_burn sts1 bk cb) (sd_primary sd) dflt2); inversion H; reflexivity.
   Qed.
+
+  (* ------------------------------------------------------------------ a sub-distributor without inflow *)
+  Lemma dec_mul_trunc_zero s : dec_mul_trunc 0 s = 0. Proof. reflexivity. Qed.
+
+  Lemma a_shares_zero d sts b i : forall shares st, RepF d st sts b i ->
+    RepF d (fst (a_shares shares 0 st 0)) sts b i /\ snd (a_shares shares 0 st 0) = 0.
+  Proof.
+    induction shares as [|sh t IH]; intros st Hr; cbn [a_shares fst snd]; [split; [exact Hr|reflexivity]|].
+    destruct (da_type (sh_dest sh) =? T_MAIN); [apply IH; exact Hr|].
+    rewrite dec_mul_trunc_zero. replace (0 - 0) with 0 by lia. apply IH. apply rep_credit_zero. exact Hr.
+  Qed.
+
+  Lemma a_dist_zero d sd st sts b i : RepF d st sts b i -> RepF d (a_dist sd 0 st) sts b i.
+  Proof.
+    intros Hr. unfold a_dist. destruct (a_shares_zero d sts b i (sd_shares sd) st Hr) as [H1 H2].
+    destruct (a_shares (sd_shares sd) 0 st 0) as [st2 df] eqn:E. cbn [fst snd] in H1, H2. subst df.
+    rewrite dec_mul_trunc_zero. replace (0 - 0) with 0 by lia. apply rep_credit_zero.
+    destruct H1 as (R1 & R2 & R3). split; [exact R1|]. split; [cbn [aB]; lia|exact R3].
+  Qed.
+
+  (* ------------------------------------------------------------------ all sub-distributors (no bank failure while sweeping) *)
+  Definition sd_full_ok (sd : subdist) : Prop := srcs_ok (sd_sources sd) /\ sd_dests_ok sd /\ sd_shares_ok sd.
+
+  Lemma srcs_ok_in_order srcs : srcs_ok srcs -> sources_in_order srcs.
+  Proof.
+    destruct srcs as [|s t]; [exact (fun _ => I)|]. intros [H1 H2]. split.
+    - destruct H1 as [Hm|Ha]; [left; exact Hm|right; split; [apply acct_type; exact Ha|apply acct_addr; exact Ha]].
+    - eapply Forall_impl; [|exact H2]. intros a Ha. split; [apply acct_type; exact Ha|apply acct_addr; exact Ha].
+  Qed.
+
+  Lemma run_subs_effect subs : forall sts b evs (st : Z -> aled),
+    Forall sd_full_ok subs -> xinv sts b -> bk_faults b = [] -> (forall d, 0 <= unbooked sts b d) -> (forall d, RepF d (st d) sts b 0) ->
+    exists sts' b' evs', run_subs subs sts b bk evs = Ok (sts', b', evs') /\ xinv sts' b' /\ bk_faults b' = [] /\
+      (forall d, 0 <= unbooked sts' b' d) /\ forall d, RepF d (a_block subs (st d)) sts' b' 0.
+  Proof.
+    induction subs as [|sd t IH]; intros sts b evs st Hok Hx Hf Hu Hrep; cbn [run_subs a_block fold_left].
+    - exists sts, b, evs. split; [reflexivity|]. split; [exact Hx|]. split; [exact Hf|]. split; [exact Hu|exact Hrep].
+    - inversion Hok as [|? ? (Hso & Hde & Hsh) Hok']; subst.
+      destruct (take_all (sd_sources sd) sts b st Hso Hx Hf Hu Hrep) as (inflow & sts1 & b1 & E1 & Hx1 & Hf1 & Hiw & Hiz & Hin & Hc).
+      destruct (prepare_all_books (sd_sources sd) sts b (x_inv _ _ Hx) (srcs_ok_in_order _ Hso) Hu) as (c' & s1' & b1' & E1' & _ & _ & _ & Hu1).
+      rewrite E1 in E1'. injection E1' as <- <- <-. rewrite E1.
+      assert (Hbase : forall d, 0 <= (if main_is_source (sd_sources sd) then 0 else unbooked sts b d)).
+      { intros d. destruct (main_is_source (sd_sources sd)); [lia | apply Hu]. }
+      assert (Hsub : forall d, a_block t (a_sub sd (st d)) = a_block t (a_dist sd (dc_amt d inflow) (snd (a_take_all (sd_sources sd) (st d) 0)))).
+      { intros d. rewrite a_sub_unfold. destruct (Hc d) as [Hc1 _]. destruct (a_take_all (sd_sources sd) (st d) 0) as [i s1] eqn:Et. cbn [fst snd] in *. subst i. reflexivity. }
+      destruct (dc_is_zero inflow) eqn:Ez.
+      + pose proof (dc_is_zero_amt inflow Ez) as Hin0.
+        destruct (IH sts1 b1 evs (fun d => a_dist sd (dc_amt d inflow) (snd (a_take_all (sd_sources sd) (st d) 0))) Hok' Hx1 Hf1) as (sts' & b' & evs' & E' & A & B & C & D).
+        * intros d. rewrite Hu1, Hin0. specialize (Hbase d). lia.
+        * intros d. rewrite Hin0. apply a_dist_zero. destruct (Hc d) as [_ Hc2]. rewrite Hin0 in Hc2. exact Hc2.
+        * exists sts', b', evs'. split; [exact E'|]. split; [exact A|]. split; [exact B|]. split; [exact C|]. intros d. fold (a_block t (a_sub sd (st d))). rewrite Hsub. apply D.
+      + destruct (start_distribution_books sd inflow sts1 b1 bk (x_inv _ _ Hx1) Hiw Hin Hsh) as (sts2 & e & E2 & _ & ub & Hub). rewrite E2.
+        destruct (sd_effect sd inflow sts1 b1 sts2 e (fun d => snd (a_take_all (sd_sources sd) (st d) 0)) E2 Hde Hiw Hiz Hin Ez Hx1 (fun d => proj2 (Hc d))) as [Hx2 Hr2].
+        destruct (IH sts2 b1 (evs ++ [(sd_name sd, (0, 0, inflow) :: e)]) (fun d => a_dist sd (dc_amt d inflow) (snd (a_take_all (sd_sources sd) (st d) 0))) Hok' Hx2 Hf1) as (sts' & b' & evs' & E' & A & B & C & D).
+        * intros d. destruct (Hub d) as (U1 & U2 & _). rewrite U2, Hu1. specialize (Hbase d). lia.
+        * exact Hr2.
+        * exists sts', b', evs'. split; [exact E'|]. split; [exact A|]. split; [exact B|]. split; [exact C|]. intros d. fold (a_block t (a_sub sd (st d))). rewrite Hsub. apply D.
+  Qed.
+
+  (* ------------------------------------------------------------------ a payout attempt *)
+  Definition other_addr (s : dstate) (x : Z) : Prop :=
+    match st_acc s with Some a => da_type a <> T_INTERNAL -> x <> da_addr a | None => True end.
+
+  Lemma payout_frame s b s' b' :
+    dc_wf (st_rem s) -> (forall d, 0 <= dc_amt d (st_rem s)) -> state_plain s ->
+    bal_wf (bk_bal b) -> dc_wf (bk_burned b) -> nzb b -> (forall d, dc_amt d (st_rem s) <= mainbal b d * P) ->
+    payout s b = Ok (s', b') ->
+    dc_nz (st_rem s) -> dc_nz (st_rem s') /\ nzb b' /\
+    (st_burn s = false -> bk_burned b' = bk_burned b) /\
+    (forall x, x <> MAINADDR ->
+       (st_burn s = false -> other_addr s x) -> bal_of (bk_bal b') x = bal_of (bk_bal b) x).
+  Proof.
+    intros Hrw Hrn Hpl Hbw Hbu Hnzb Hcov H Hrz. unfold payout in H. unfold state_plain in Hpl.
+    destruct (st_acc s) as [a|] eqn:Ea; [|discriminate].
+    destruct (negb (da_type a =? T_INTERNAL) && dc_any_gte1 (st_rem s)) eqn:Eg.
+    2:{ injection H as <- <-. split; [exact Hrz|]. split; [exact Hnzb|]. split; [reflexivity|]. intros; reflexivity. }
+    destruct (dc_trunc (st_rem s)) as [to_send change] eqn:Et.
+    destruct (dc_trunc_spec _ Hrw) as (Hsw & Hcw & Htr). destruct (dc_trunc_nz (st_rem s)) as [Hsz Hcz].
+    rewrite Et in Hsw, Hcw, Htr, Hsz, Hcz. cbn [fst snd] in *.
+    pose proof P_pos as HP.
+    assert (Hsend : forall d, 0 <= dc_amt d to_send <= dc_amt d (bal_of (bk_bal b) MAINADDR)).
+    { intros d0. destruct (Htr d0) as [Hs1 _]. rewrite Hs1. specialize (Hrn d0). specialize (Hcov d0). unfold mainbal in Hcov.
+      rewrite chop_trunc_nonneg by exact Hrn. split; [apply Z.div_pos; lia|]. apply Z.div_le_upper_bound; lia. }
+    apply andb_true_iff in Eg as [Eg1 _].
+    assert (Hnz' : forall (ok : bool) (s0 : dstate), dc_nz (st_rem (if ok then set_rem change s else s))).
+    { intros ok _. destruct ok; [cbn [set_rem st_rem]; exact Hcz|exact Hrz]. }
+    destruct (st_burn s) eqn:Eb.
+    - destruct (burn b MAINADDR to_send) as [ok b1] eqn:Ebn. injection H as <- <-.
+      split; [apply (Hnz' ok s)|].
+      unfold burn in Ebn. destruct (next_fault b) as [f b0] eqn:En.
+      pose proof (next_fault_bal b) as [Hb1 Hb2]. rewrite En in Hb1, Hb2. cbn [snd] in Hb1, Hb2.
+      destruct f; injection Ebn as <- <-.
+      + assert (Hfd : failed_debit b0 MAINADDR to_send = b0) by (apply failed_debit_covered; rewrite ?Hb1; [apply Hbw | exact Hsw | exact Hsend]).
+        rewrite Hfd. split; [destruct Hnzb as [N1 N2]; split; [intros x; rewrite Hb1; apply N1|rewrite Hb2; exact N2]|].
+        split; [discriminate|]. intros x _ _. rewrite Hb1. reflexivity.
+      + split.
+        { destruct Hnzb as [N1 N2]. split.
+          - intros x. cbn [bk_bal]. rewrite Hb1. destruct (Z.eq_dec x MAINADDR) as [->|Hx]; [rewrite bal_of_aset_same; apply dc_add_nz; [apply N1|apply dc_neg_nz; exact Hsz]|rewrite bal_of_aset_other by exact Hx; apply N1].
+          - cbn [bk_burned]. rewrite Hb2. apply dc_add_nz; assumption. }
+        split; [discriminate|]. intros x Hx _. cbn [bk_bal]. rewrite Hb1. rewrite bal_of_aset_other by exact Hx. reflexivity.
+    - assert (Hne : MAINADDR <> da_addr a) by (intros E; apply (Hpl eq_refl); [lia | symmetry; exact E]).
+      destruct (transfer b MAINADDR (da_addr a) to_send) as [ok b1] eqn:Etr. injection H as <- <-.
+      split; [apply (Hnz' ok s)|].
+      destruct (transfer_effect _ _ _ _ _ _ Etr Hne Hbw Hsw Hsend) as (T1 & T2 & T3 & T4 & T5).
+      split.
+      { unfold transfer in Etr. destruct (next_fault b) as [f b0] eqn:En.
+        pose proof (next_fault_bal b) as [Hb1 Hb2]. rewrite En in Hb1, Hb2. cbn [snd] in Hb1, Hb2. destruct Hnzb as [N1 N2].
+        destruct f; injection Etr as <- <-.
+        - assert (Hfd : failed_debit b0 MAINADDR to_send = b0) by (apply failed_debit_covered; rewrite ?Hb1; [apply Hbw | exact Hsw | exact Hsend]).
+          rewrite Hfd. split; [intros x; rewrite Hb1; apply N1|rewrite Hb2; exact N2].
+        - split; [|cbn [bk_burned]; rewrite Hb2; exact N2]. intros x. cbn [bk_bal]. rewrite Hb1.
+          destruct (Z.eq_dec x (da_addr a)) as [->|Hx1].
+          + rewrite bal_of_aset_same. apply dc_add_nz; [|exact Hsz]. rewrite bal_of_aset_other by (intros E; apply Hne; symmetry; exact E). apply N1.
+          + rewrite bal_of_aset_other by exact Hx1. destruct (Z.eq_dec x MAINADDR) as [->|Hx2].
+            * rewrite bal_of_aset_same. apply dc_add_nz; [apply N1|apply dc_neg_nz; exact Hsz].
+            * rewrite bal_of_aset_other by exact Hx2. apply N1. }
+      split; [intros _; exact T1|]. intros x Hx Hx2. apply T3; [exact Hx|]. specialize (Hx2 eq_refl). unfold other_addr in Hx2. rewrite Ea in Hx2. apply Hx2. lia.
+  Qed.
+
+  Lemma lkeyed_plain s : lkeyed s -> state_plain s.
+  Proof.
+    unfold lkeyed, state_plain. destruct (st_acc s) as [a|]; [|intros []]. destruct (st_burn s); [intros _ E; discriminate E|].
+    intros [_ Ha] _ Hi. apply acct_addr; assumption.
+  Qed.
+
+  Lemma remk_mid k d pre s t : remk k d (pre ++ s :: t) = remk k d pre + (if st_key s =? k then dc_amt d (st_rem s) else 0) + remk k d t.
+  Proof. rewrite remk_app, remk_cons. lia. Qed.
+
+  (* ------------------------------------------------------------------ the payout phase: any failures *)
+  Lemma payout_all_effect d sts : forall b pre (st : aled),
+    xinv (pre ++ sts) b -> (forall d, 0 <= unbooked (pre ++ sts) b d) -> RepF d st (pre ++ sts) b 0 ->
+    exists sts' b', payout_all sts b = Ok (sts', b') /\ xinv (pre ++ sts') b' /\ Forall2 same_sig sts sts' /\
+      (forall d, unbooked (pre ++ sts') b' d = unbooked (pre ++ sts) b d) /\ RepF d st (pre ++ sts') b' 0.
+  Proof.
+    induction sts as [|s t IH]; intros b pre st Hx Hu Hrep; cbn [payout_all].
+    - exists [], b. split; [reflexivity|]. split; [exact Hx|]. split; [constructor|]. split; [reflexivity|exact Hrep].
+    - destruct Hx as [Hi [Hk Hn] Hzs Hzb].
+      pose proof (proj1 (Forall_app _ _ _) (i_wf _ _ Hi)) as [Hwp Hwst]. inversion Hwst as [|? ? Hws Hwt]; subst.
+      pose proof (proj1 (Forall_app _ _ _) (i_nn _ _ Hi)) as [Hnp Hnst]. inversion Hnst as [|? ? Hns Hnt]; subst.
+      pose proof (proj1 (Forall_app _ _ _) Hk) as [Hkp Hkst]. inversion Hkst as [|? ? Hks Hkt]; subst.
+      pose proof (proj1 (Forall_app _ _ _) Hzs) as [Hzp Hzst]. inversion Hzst as [|? ? Hzs1 Hzt]; subst.
+      assert (Hacc : has_acc s) by (unfold lkeyed in Hks; unfold has_acc; destruct (st_acc s); [discriminate|contradiction]).
+      pose proof (lkeyed_plain s Hks) as Hpl.
+      assert (Hcov : forall d, dc_amt d (st_rem s) <= mainbal b d * P).
+      { intros d0. specialize (Hu d0). unfold unbooked in Hu. rewrite remsum_app, remsum_cons in Hu.
+        pose proof (remsum_nonneg d0 pre Hnp). pose proof (remsum_nonneg d0 t Hnt). lia. }
+      destruct (payout_books s b Hws Hns Hacc Hpl (i_bwf _ _ Hi) (i_bnn _ _ Hi) (i_burned _ _ Hi) Hcov)
+        as (s' & b1 & E & Hw' & Hn' & Eacc & Eburn & Ekey & Hbw1 & Hbn1 & Hbu1 & Hm).
+      rewrite E.
+      destruct (payout_frame s b s' b1 Hws Hns Hpl (i_bwf _ _ Hi) (i_burned _ _ Hi) Hzb Hcov E Hzs1) as (Hz' & Hzb1 & Fb & Fx).
+      pose proof (payout_keeps_credited s b Hws Hns Hacc Hpl (i_bwf _ _ Hi) (i_bnn _ _ Hi) (i_burned _ _ Hi) Hcov s' b1 E d) as Hcred.
+      assert (Hks' : lkeyed s') by (unfold lkeyed in *; rewrite Eacc, Eburn, Ekey; exact Hks).
+      assert (Hx1 : xinv ((pre ++ [s']) ++ t) b1).
+      { rewrite <- app_assoc. cbn [app]. constructor.
+        - constructor; [apply Forall_app; split; [exact Hwp|constructor; assumption] | apply Forall_app; split; [exact Hnp|constructor; assumption]
+                        | | exact Hbw1 | exact Hbn1 | exact Hbu1].
+          apply lkeyed_has_acc. apply Forall_app. split; [exact Hkp|constructor; assumption].
+        - split; [apply Forall_app; split; [exact Hkp|constructor; assumption]|].
+          rewrite map_app in *. cbn [map] in *. rewrite Ekey. exact Hn.
+        - apply Forall_app. split; [exact Hzp|constructor; assumption].
+        - exact Hzb1. }
+      assert (Hu1 : forall d0, unbooked ((pre ++ [s']) ++ t) b1 d0 = unbooked (pre ++ s :: t) b d0).
+      { intros d0. unfold unbooked. rewrite <- app_assoc. cbn [app]. rewrite !remsum_app, !remsum_cons. destruct (Hm d0) as [Hm1 _]. lia. }
+      assert (Hrep1 : RepF d st ((pre ++ [s']) ++ t) b1 0).
+      { destruct Hrep as (R1 & R2 & R3). rewrite <- app_assoc. cbn [app]. split; [|split].
+        - intros a Ha. rewrite (R1 a Ha). unfold ledA. rewrite !remk_mid, Ekey.
+          unfold credited in Hcred. rewrite Eacc, Eburn in Hcred. unfold lkeyed in Hks.
+          destruct (st_acc s) as [a0|] eqn:Ea0; [|contradiction].
+          destruct (st_burn s) eqn:Eb.
+          + destruct Hks as [Hkey _]. replace (st_key s =? da_key a) with false by (pose proof (acct_bk a Ha); lia).
+            destruct (da_type a =? T_INTERNAL) eqn:Ei; [lia|]. rewrite Fx; [lia | apply acct_addr; [exact Ha|lia] | discriminate].
+          + destruct Hks as [Hkey Ha0]. destruct (st_key s =? da_key a) eqn:Ek.
+            * assert (Ekk : da_key a0 = da_key a) by lia. destruct (key_same a0 a Ha0 Ha Ekk) as [Et Ead]. rewrite <- Et, <- Ead.
+              destruct (da_type a0 =? T_INTERNAL) eqn:Ei; [|lia].
+              (* internal accounts are never paid *)
+              unfold payout in E. rewrite Ea0 in E. rewrite Ei in E. cbn [negb andb] in E. injection E as <- <-. lia.
+            * destruct (da_type a =? T_INTERNAL) eqn:Ei; [lia|]. rewrite Fx; [lia | apply acct_addr; [exact Ha|lia] |].
+              intros _. unfold other_addr. rewrite Ea0. intros Hi0 Heq.
+              assert (da_key a = da_key a0) by (apply addr_key; try assumption; lia). lia.
+        - rewrite R2. unfold ledB. rewrite !remk_mid, Ekey.
+          unfold credited in Hcred. rewrite Eacc, Eburn in Hcred. unfold lkeyed in Hks.
+          destruct (st_acc s) as [a0|] eqn:Ea0; [|contradiction].
+          destruct (st_burn s) eqn:Eb.
+          + destruct Hks as [Hkey _]. rewrite Hkey, Z.eqb_refl. lia.
+          + destruct Hks as [Hkey Ha0]. replace (st_key s =? bk) with false by (pose proof (acct_bk a0 Ha0); lia).
+            rewrite (Fb eq_refl). lia.
+        - pose proof (Hu1 d) as Hd. rewrite <- app_assoc in Hd. cbn [app] in Hd. rewrite Hd. exact R3. }
+      destruct (IH b1 (pre ++ [s']) st Hx1) as (t' & b2 & E2 & Hx2 & Hs2 & Hu2 & Hr2).
+      + intros d0. rewrite Hu1. apply Hu.
+      + exact Hrep1.
+      + rewrite E2. exists (s' :: t'), b2. split; [reflexivity|].
+        rewrite <- app_assoc in Hx2, Hu2, Hr2. cbn [app] in Hx2, Hu2, Hr2.
+        split; [exact Hx2|]. split; [constructor; [split; [exact Eacc|split; [exact Eburn|exact Ekey]]|exact Hs2]|].
+        split; [|exact Hr2]. intros d0. rewrite Hu2. rewrite <- (Hu1 d0). rewrite <- app_assoc. reflexivity.
+  Qed.
